@@ -208,7 +208,7 @@ def explore_full(ctx, cfg, sc_dir, idx, budget, n_cli):
         return None
     replay_base = {"training": cfg}
     sc, sc_err = T.load_scorer()
-    P, p_err = of.build_pcfg_scorer(T.base_dir)
+    P, p_err = of.build_pcfg_scorer(T.base_dir, cfg.get("limit", 0), cfg.get("max_omen", 9))
     G, g_err = T.load_guesser()
     E, errs = {}, []
     if G is not None:
@@ -402,10 +402,11 @@ def run(ctx):
     # ---- stage "full": the real run_trainer, the level PCFGPasswordScorer.parse / password_scorer.py report
     full = {"models": 0, "unusable_lists": 0, "kinds": {}, "ngram": {}, "encodings": {}, "alphabet_size": {},
             "strings_reported": 0, "category": {}, "mail_or_site_with_level": 0, "mail_or_site_without_level": 0,
-            "reported_by_origin": {}, "cli_runs": 0, "cli_lines": 0, "guesser_decided": 0}
+            "reported_by_origin": {}, "cli_runs": 0, "cli_lines": 0, "guesser_decided": 0,
+            "limit": {}, "max_omen": {}, "reported_above_max_omen": 0}
     dist["full"] = full
-    n_full = ctx.scale(24, 500)
-    n_cli_models = ctx.scale(8, 60)
+    n_full = ctx.scale(48, 600)
+    n_cli_models = ctx.scale(12, 60)
     fkinds = ["full_mixed", "full_mailweb", "full_small_alphabet", "full_plain", "full_mixed", "full_mailweb"]
     pending = []
     for i in range(n_full):
@@ -426,7 +427,7 @@ def run(ctx):
             full["cli_lines"] += nl
         full["models"] += 1
         for k, val in (("kinds", cfg["kind"]), ("ngram", cfg["ngram"]), ("encodings", cfg["encoding"]),
-                       ("alphabet_size", cfg["alphabet_size"])):
+                       ("alphabet_size", cfg["alphabet_size"]), ("limit", cfg["limit"]), ("max_omen", cfg["max_omen"])):
             full[k][str(val)] = full[k].get(str(val), 0) + 1
         dist["scorer_loaded"] += sc is not None
         dist["guesser_loaded"] += G is not None
@@ -447,6 +448,7 @@ def run(ctx):
             full["strings_reported"] += 1
             full["category"][row["category"]] = full["category"].get(row["category"], 0) + 1
             full["reported_by_origin"][row["why"]] = full["reported_by_origin"].get(row["why"], 0) + 1
+            full["reported_above_max_omen"] += row["trainer"] is not None and row["trainer"] > cfg["max_omen"]
             if row["category"] in ("e", "w"):
                 full["mail_or_site_with_level" if row["trainer"] is not None else "mail_or_site_without_level"] += 1
         if len(samples) < 7 and rows2:
@@ -498,7 +500,7 @@ def run(ctx):
             "(0, 1, ngram-1, ngram, ngram+1, max-1, max, max+1, max+2), foreign-character and one-character mutations; each is "
             "put to find_omen_level, OmenScorer.parse and the per-level MarkovCracker output; stage 'full': lists of 6-22 distinct "
             "strings (ordinary word+digit passwords, e-mail addresses, web sites with www./http:// prefixes, tails, upper case; "
-            "n-gram 2-5, alphabet 10-100, utf-8 / latin-1 / cp1252) trained by the real run_trainer; per ruleset the same "
+            "n-gram 2-5, alphabet 10-100, utf-8 / latin-1 / cp1252; scorer --limit 0..0.01, --max_omen 0..12) trained by the real run_trainer; per ruleset the same "
             "candidates plus recombined / unseen / too long / too short / foreign-character e-mail and web site looking strings "
             "are ALSO put to PCFGPasswordScorer.parse (built as password_scorer.py builds it) whose 4th field is compared with "
             "the trainer's level, the MarkovCracker's level and the model, and up to 40 of them go through password_scorer.py "
@@ -542,7 +544,7 @@ def check_one(rng, cfg, string, budget, cli=None):
     vio += v
     vio += counts_oracle(T, G, E, {"training": cfg})
     if is_full:
-        P, p_err = of.build_pcfg_scorer(T.base_dir)
+        P, p_err = of.build_pcfg_scorer(T.base_dir, cfg.get("limit", 0), cfg.get("max_omen", 9))
         v, rows2 = reported_oracle(T, P, p_err, E, cands, {"training": cfg})
         vio += v
         if cli and P is not None:
